@@ -204,9 +204,9 @@ def _unset_values(v: Sym) -> Set[str]:
 def _emitted(term: Optional[Sym]) -> bool:
     if term is None:
         return False
+    # a field key (number << 3 | wire type) is part of what is written / counted, whichever way it is turned into bytes
     for t in walk(term):
-        if t[0] == "call" and dotted(t[1]) in ("encode_varint", "size_varint") and any(
-                x[0] == "op" and x[1] == "<<" and x[-1] == C(3) for a in t[2] for x in walk(a)):
+        if t[0] == "op" and t[1] == "<<" and t[-1] == C(3):
             return True
     return False
 
